@@ -58,7 +58,7 @@ theorem rotateRows_rect {M : Mat} {m n : Nat} (hM : Rect M m n) (G : G2) (l : Na
 def StepExactL (tol : Rat) (M : Mat) (l k : Nat) : Prop :=
   (small tol (M.get l k) = true → M.get l k = 0) ∧
   (small tol (M.get (l + 1) k) = true → M.get (l + 1) k = 0) ∧
-  (realish tol (M.get l k) (M.get (l + 1) k) = true → (M.get l k).im = 0 ∧ (M.get (l + 1) k).im = 0) ∧
+  RealExact tol (M.get l k) (M.get (l + 1) k) ∧
   (big tol (M.get l k) = false → M.get l k = 0)
 
 /-- the exact regime along the run of `leftStage` (matrix part) -/
@@ -83,16 +83,10 @@ theorem left_step (tol : Rat) (htol : 0 < tol) (M : Mat) (m n l k : Nat) (G : G2
   · rw [rotateRows_get M G m n l l k hM hl hk]
     have : ¬ (l = l + 1) := by omega
     simp only [this, if_false, if_true]
-    unfold givensElems at hG
-    cases hC : cosSinPhase tol (M.get l k) (M.get (l + 1) k) with
-    | error e => simp [hC, bind, Except.bind] at hG
-    | ok t =>
-      obtain ⟨c, s, ph⟩ := t
-      simp only [hC, bind, Except.bind] at hG
-      injection hG with hG; subst hG
-      have hcsp := cosSinPhase_spec htol hex.1 hex.2.1 hC
-      have hz := assemble_zeroes hcsp false _ hex.2.2.1
-      simpa [G2.Zeroes] using hz
+    obtain ⟨c, s, ph, hC, hr, rfl⟩ := givensElems_inv hex.2.2.1 hG
+    have hcsp := cosSinPhase_spec htol hex.1 hex.2.1 hC
+    have hz := assemble_zeroes hcsp false _ hr
+    simpa [G2.Zeroes] using hz
   · intro r x hx h1 h2
     rw [rotateRows_get M G m n l r x hM hl hx]
     simp [h1, h2]
